@@ -5,8 +5,11 @@
    check tools/checks/c17.py, which runs the REAL proxy_agent_setup binary in a private root).
 
    Every theorem is for ALL worlds (arbitrary file contents and modes, arbitrary other files,
-   any package beside the tool, any service state) and for EVERY oracle [runnable] deciding
-   whether executing a file with `--version` succeeds. *)
+   any package beside the tool, any service state), for EVERY oracle [runnable] deciding
+   whether executing a file with `--version` succeeds, and for EVERY oracle [fails] deciding which
+   systemctl invocations fail (non-zero exit, no effect): what is said about FILES, exit codes and
+   the call/write log holds whatever systemctl answers; what is said about the resulting service
+   state (running, enabled) carries the hypothesis that no invocation fails. *)
 From GPA Require Import Setup SetupProofs.
 
 (* REVERSIBLE.  From any world in which a version is installed (the four system files present,
@@ -14,54 +17,54 @@ From GPA Require Import Setup SetupProofs.
    complete, partial, broken or absent); restore (with or without deleting the backup) the four
    system files are exactly (mode and content) what they were, and the service is running and
    enabled. *)
-Theorem C17_reversible : forall (runnable : file -> bool) (d : bool) (w : world),
+Theorem C17_reversible : forall (runnable : file -> bool) (fails : verb -> list event -> bool) (d : bool) (w : world),
   installed runnable w = true ->
-  let w' := exec runnable (Restore d) (exec runnable Install (exec runnable Backup w)) in
+  let w' := exec runnable fails (Restore d) (exec runnable fails Install (exec runnable fails Backup w)) in
   (forall l, In l sys_locs -> fs_get l (wfs w') = fs_get l (wfs w)) /\
-  wrunning w' = true /\ wenabled w' = true.
+  ((forall v l, fails v l = false) -> wrunning w' = true /\ wenabled w' = true).
 Proof. exact reversible. Qed.
 Print Assumptions C17_reversible.
 
 (* STOP BEFORE REPLACE.  In what ANY command appends to the ordered call/write log, every
    creation, replacement or removal of a system file is preceded by a `systemctl stop` with no
    `systemctl start` between that stop and the mutation ... *)
-Theorem C17_stop_before_replace : forall (runnable : file -> bool) (c : cmd) (w : world)
+Theorem C17_stop_before_replace : forall (runnable : file -> bool) (fails : verb -> list event -> bool) (c : cmd) (w : world)
     (pre : list event) (ev : event) (post : list event),
-  step_events runnable c w = pre ++ ev :: post -> sys_mutation ev = true ->
+  step_events runnable fails c w = pre ++ ev :: post -> sys_mutation ev = true ->
   exists p1 p2, pre = p1 ++ ECall VStop :: p2 /\ ~ In (ECall VStart) p2.
 Proof. exact stop_before_replace. Qed.
 Print Assumptions C17_stop_before_replace.
 
 (* ... hence nothing is replaced after the start (a later mutation needs another stop) ... *)
-Theorem C17_no_replace_after_start : forall (runnable : file -> bool) (c : cmd) (w : world)
+Theorem C17_no_replace_after_start : forall (runnable : file -> bool) (fails : verb -> list event -> bool) (c : cmd) (w : world)
     (pre mid : list event) (ev : event) (post : list event),
-  step_events runnable c w = pre ++ ECall VStart :: mid ++ ev :: post ->
+  step_events runnable fails c w = pre ++ ECall VStart :: mid ++ ev :: post ->
   sys_mutation ev = true -> In (ECall VStop) mid.
 Proof. exact no_replace_after_start. Qed.
 Print Assumptions C17_no_replace_after_start.
 
 (* ... install, restore and uninstall do nothing before `systemctl stop` ... *)
-Theorem C17_stop_first : forall (runnable : file -> bool) (c : cmd) (w : world),
+Theorem C17_stop_first : forall (runnable : file -> bool) (fails : verb -> list event -> bool) (c : cmd) (w : world),
   match c with Install | Restore _ | Uninstall _ => True | _ => False end ->
-  step_events runnable c w = [] \/ exists es, step_events runnable c w = ECall VStop :: es.
+  step_events runnable fails c w = [] \/ exists es, step_events runnable fails c w = ECall VStop :: es.
 Proof. exact stop_first. Qed.
 Print Assumptions C17_stop_first.
 
 (* ... and a complete install / a restore of a complete backup log exactly: stop, the four
    writes, unmask, daemon-reload, enable, start (then the removal of the backup folder). *)
-Theorem C17_install_log : forall (runnable : file -> bool) (w : world) (e c b u : file),
+Theorem C17_install_log : forall (runnable : file -> bool) (fails : verb -> list event -> bool) (w : world) (e c b u : file),
   fs_get PkgExe (wfs w) = Some e -> fs_get PkgCfg (wfs w) = Some c ->
   fs_get PkgEbpf (wfs w) = Some b -> fs_get PkgUnit (wfs w) = Some u -> runnable e = true ->
-  step_events runnable Install w =
+  step_events runnable fails Install w =
   [ECall VStop; EWrite SysExe; EWrite SysCfg; EWrite SysEbpf; EWrite SysUnit;
    ECall VUnmask; ECall VDaemonReload; ECall VEnable; ECall VStart].
 Proof. exact install_complete_log. Qed.
 Print Assumptions C17_install_log.
 
-Theorem C17_restore_log : forall (runnable : file -> bool) (d : bool) (w : world) (e c b u : file),
+Theorem C17_restore_log : forall (runnable : file -> bool) (fails : verb -> list event -> bool) (d : bool) (w : world) (e c b u : file),
   fs_get BakExe (wfs w) = Some e -> fs_get BakCfg (wfs w) = Some c ->
   fs_get BakEbpf (wfs w) = Some b -> fs_get BakUnit (wfs w) = Some u -> runnable e = true ->
-  step_events runnable (Restore d) w =
+  step_events runnable fails (Restore d) w =
   [ECall VStop; EWrite SysExe; EWrite SysCfg; EWrite SysEbpf; EWrite SysUnit;
    ECall VUnmask; ECall VDaemonReload; ECall VEnable; ECall VStart]
   ++ (if d then [ERemoveBackupDir] else []).
@@ -70,26 +73,27 @@ Print Assumptions C17_restore_log.
 
 (* INSTALL EXACT.  With a complete package the four system files are exactly the packaged
    files, the service is running and enabled, exit code 0. *)
-Theorem C17_install_exact : forall (runnable : file -> bool) (w : world) (e c b u : file),
+Theorem C17_install_exact : forall (runnable : file -> bool) (fails : verb -> list event -> bool) (w : world) (e c b u : file),
   fs_get PkgExe (wfs w) = Some e -> fs_get PkgCfg (wfs w) = Some c ->
   fs_get PkgEbpf (wfs w) = Some b -> fs_get PkgUnit (wfs w) = Some u -> runnable e = true ->
-  let w' := exec runnable Install w in
+  let w' := exec runnable fails Install w in
   fs_get SysExe (wfs w') = Some e /\ fs_get SysCfg (wfs w') = Some c /\
   fs_get SysEbpf (wfs w') = Some b /\ fs_get SysUnit (wfs w') = Some u /\
-  wrunning w' = true /\ wenabled w' = true /\ exit_code runnable Install w = 0.
+  exit_code runnable fails Install w = 0 /\
+  ((forall v l, fails v l = false) -> wrunning w' = true /\ wenabled w' = true).
 Proof. exact install_complete. Qed.
 Print Assumptions C17_install_exact.
 
 (* install writes nothing but system paths (the package and the backup are left alone) *)
-Theorem C17_install_only_system_paths : forall (runnable : file -> bool) (w : world) (l : loc),
-  is_sys l = false -> fs_get l (wfs (exec runnable Install w)) = fs_get l (wfs w).
+Theorem C17_install_only_system_paths : forall (runnable : file -> bool) (fails : verb -> list event -> bool) (w : world) (l : loc),
+  is_sys l = false -> fs_get l (wfs (exec runnable fails Install w)) = fs_get l (wfs w).
 Proof. exact install_sys_only. Qed.
 Print Assumptions C17_install_only_system_paths.
 
 (* BACKUP EXACT.  Each present system file is copied to its backup location (a missing one
    leaves a stale backup entry in place); nothing else changes. *)
-Theorem C17_backup_exact : forall (runnable : file -> bool) (w : world) (l : loc),
-  fs_get l (wfs (exec runnable Backup w)) =
+Theorem C17_backup_exact : forall (runnable : file -> bool) (fails : verb -> list event -> bool) (w : world) (l : loc),
+  fs_get l (wfs (exec runnable fails Backup w)) =
   match l with
   | BakCfg => match fs_get SysCfg (wfs w) with Some f => Some f | None => fs_get BakCfg (wfs w) end
   | BakEbpf => match fs_get SysEbpf (wfs w) with Some f => Some f | None => fs_get BakEbpf (wfs w) end
@@ -102,108 +106,110 @@ Print Assumptions C17_backup_exact.
 
 (* RESTORE EXACT.  With a complete backup whose agent runs, the four system files are exactly
    the backed-up files. *)
-Theorem C17_restore_exact : forall (runnable : file -> bool) (d : bool) (w : world) (e c b u : file),
+Theorem C17_restore_exact : forall (runnable : file -> bool) (fails : verb -> list event -> bool) (d : bool) (w : world) (e c b u : file),
   fs_get BakExe (wfs w) = Some e -> fs_get BakCfg (wfs w) = Some c ->
   fs_get BakEbpf (wfs w) = Some b -> fs_get BakUnit (wfs w) = Some u -> runnable e = true ->
-  let w' := exec runnable (Restore d) w in
+  let w' := exec runnable fails (Restore d) w in
   fs_get SysExe (wfs w') = Some e /\ fs_get SysCfg (wfs w') = Some c /\
   fs_get SysEbpf (wfs w') = Some b /\ fs_get SysUnit (wfs w') = Some u /\
-  wrunning w' = true /\ wenabled w' = true /\ exit_code runnable (Restore d) w = 0.
+  exit_code runnable fails (Restore d) w = 0 /\
+  ((forall v l, fails v l = false) -> wrunning w' = true /\ wenabled w' = true).
 Proof. exact restore_complete. Qed.
 Print Assumptions C17_restore_exact.
 
 (* RESTORE WITHOUT A BACKUP changes nothing: the world is the same record except for the
    banner in the tool's own log (no file, no service state, no systemctl call). *)
-Theorem C17_restore_without_backup_identity : forall (runnable : file -> bool) (d : bool) (w : world),
-  backup_exists w = false -> exec runnable (Restore d) w = log_tool (Restore d) w.
+Theorem C17_restore_without_backup_identity : forall (runnable : file -> bool) (fails : verb -> list event -> bool) (d : bool) (w : world),
+  backup_exists w = false -> exec runnable fails (Restore d) w = log_tool (Restore d) w.
 Proof. exact restore_without_backup. Qed.
 Print Assumptions C17_restore_without_backup_identity.
 
 (* UNINSTALL in package mode removes the four installed files and leaves everything else;
    the service ends stopped and disabled.  Service mode removes only the unit file. *)
-Theorem C17_uninstall_package_removes : forall (runnable : file -> bool) (w : world) (l : loc),
-  In l sys_locs -> fs_get l (wfs (exec runnable (Uninstall UPackage) w)) = None.
+Theorem C17_uninstall_package_removes : forall (runnable : file -> bool) (fails : verb -> list event -> bool) (w : world) (l : loc),
+  In l sys_locs -> fs_get l (wfs (exec runnable fails (Uninstall UPackage) w)) = None.
 Proof. exact uninstall_package_removes. Qed.
 Print Assumptions C17_uninstall_package_removes.
 
-Theorem C17_uninstall_only_system_paths : forall (runnable : file -> bool) (m : umode) (w : world) (l : loc),
-  is_sys l = false -> fs_get l (wfs (exec runnable (Uninstall m) w)) = fs_get l (wfs w).
+Theorem C17_uninstall_only_system_paths : forall (runnable : file -> bool) (fails : verb -> list event -> bool) (m : umode) (w : world) (l : loc),
+  is_sys l = false -> fs_get l (wfs (exec runnable fails (Uninstall m) w)) = fs_get l (wfs w).
 Proof. exact uninstall_sys_only. Qed.
 Print Assumptions C17_uninstall_only_system_paths.
 
-Theorem C17_uninstall_service_keeps_files : forall (runnable : file -> bool) (w : world) (l : loc),
-  l <> SysUnit -> fs_get l (wfs (exec runnable (Uninstall UService) w)) = fs_get l (wfs w).
+Theorem C17_uninstall_service_keeps_files : forall (runnable : file -> bool) (fails : verb -> list event -> bool) (w : world) (l : loc),
+  l <> SysUnit -> fs_get l (wfs (exec runnable fails (Uninstall UService) w)) = fs_get l (wfs w).
 Proof. exact uninstall_service_keeps. Qed.
 Print Assumptions C17_uninstall_service_keeps_files.
 
-Theorem C17_uninstall_stops_and_disables : forall (runnable : file -> bool) (m : umode) (w : world),
-  wrunning (exec runnable (Uninstall m) w) = false /\ wenabled (exec runnable (Uninstall m) w) = false /\
-  exit_code runnable (Uninstall m) w = 0.
+Theorem C17_uninstall_stops_and_disables : forall (runnable : file -> bool) (fails : verb -> list event -> bool) (m : umode) (w : world),
+  exit_code runnable fails (Uninstall m) w = 0 /\
+  ((forall v l, fails v l = false) ->
+   wrunning (exec runnable fails (Uninstall m) w) = false /\ wenabled (exec runnable fails (Uninstall m) w) = false).
 Proof. exact uninstall_service_state. Qed.
 Print Assumptions C17_uninstall_stops_and_disables.
 
 (* PURGE removes the backup folder and only that: every other location, the service state
    and the systemctl log are untouched. *)
-Theorem C17_purge_only_backup : forall (runnable : file -> bool) (w : world) (l : loc),
-  fs_get l (wfs (exec runnable Purge w)) = if in_backup l then None else fs_get l (wfs w).
+Theorem C17_purge_only_backup : forall (runnable : file -> bool) (fails : verb -> list event -> bool) (w : world) (l : loc),
+  fs_get l (wfs (exec runnable fails Purge w)) = if in_backup l then None else fs_get l (wfs w).
 Proof. exact purge_get. Qed.
 Print Assumptions C17_purge_only_backup.
 
-Theorem C17_purge_no_service_effect : forall (runnable : file -> bool) (w : world),
-  wrunning (exec runnable Purge w) = wrunning w /\ wenabled (exec runnable Purge w) = wenabled w /\
-  step_events runnable Purge w = [ERemoveBackupDir] /\ exit_code runnable Purge w = 0.
+Theorem C17_purge_no_service_effect : forall (runnable : file -> bool) (fails : verb -> list event -> bool) (w : world),
+  wrunning (exec runnable fails Purge w) = wrunning w /\ wenabled (exec runnable fails Purge w) = wenabled w /\
+  step_events runnable fails Purge w = [ERemoveBackupDir] /\ exit_code runnable fails Purge w = 0.
 Proof. exact purge_rest. Qed.
 Print Assumptions C17_purge_no_service_effect.
 
 (* FRAME.  No command alters a location outside the four system paths and the backup folder
    (the tool's own log is the [wtool] component, not a location) -- in the file system ... *)
-Theorem C17_frame : forall (runnable : file -> bool) (c : cmd) (w : world) (l : loc),
-  allowed l = false -> fs_get l (wfs (exec runnable c w)) = fs_get l (wfs w).
+Theorem C17_frame : forall (runnable : file -> bool) (fails : verb -> list event -> bool) (c : cmd) (w : world) (l : loc),
+  allowed l = false -> fs_get l (wfs (exec runnable fails c w)) = fs_get l (wfs w).
 Proof. exact exec_frame. Qed.
 Print Assumptions C17_frame.
 
 (* ... and in the write log: every logged mutation targets an allowed location. *)
-Theorem C17_frame_log : forall (runnable : file -> bool) (c : cmd) (w : world),
-  forallb event_allowed (step_events runnable c w) = true.
+Theorem C17_frame_log : forall (runnable : file -> bool) (fails : verb -> list event -> bool) (c : cmd) (w : world),
+  forallb event_allowed (step_events runnable fails c w) = true.
 Proof. exact exec_events_allowed. Qed.
 Print Assumptions C17_frame_log.
 
 (* HISTORIES.  For every sequence of commands from every world: locations outside the allowed
    set are untouched (in particular the package beside the tool) ... *)
-Theorem C17_histories_frame : forall (runnable : file -> bool) (cmds : list cmd) (w : world) (l : loc),
-  allowed l = false -> fs_get l (wfs (run runnable cmds w)) = fs_get l (wfs w).
+Theorem C17_histories_frame : forall (runnable : file -> bool) (fails : verb -> list event -> bool) (cmds : list cmd) (w : world) (l : loc),
+  allowed l = false -> fs_get l (wfs (run runnable fails cmds w)) = fs_get l (wfs w).
 Proof. exact run_frame. Qed.
 Print Assumptions C17_histories_frame.
 
-Theorem C17_histories_package_untouched : forall (runnable : file -> bool) (cmds : list cmd) (w : world) (l : loc),
-  In l pkg_locs -> fs_get l (wfs (run runnable cmds w)) = fs_get l (wfs w).
+Theorem C17_histories_package_untouched : forall (runnable : file -> bool) (fails : verb -> list event -> bool) (cmds : list cmd) (w : world) (l : loc),
+  In l pkg_locs -> fs_get l (wfs (run runnable fails cmds w)) = fs_get l (wfs w).
 Proof. exact package_untouched. Qed.
 Print Assumptions C17_histories_package_untouched.
 
 (* ... every system file is only ever created, replaced or removed while the last stop/start
    call was a stop, whatever the service state at the beginning ... *)
-Theorem C17_histories_stop_before_replace : forall (runnable : file -> bool) (cmds : list cmd) (w : world) (r : bool),
-  log_safe r (history_events runnable cmds w) = true.
+Theorem C17_histories_stop_before_replace : forall (runnable : file -> bool) (fails : verb -> list event -> bool) (cmds : list cmd) (w : world) (r : bool),
+  log_safe r (history_events runnable fails cmds w) = true.
 Proof. exact history_events_safe. Qed.
 Print Assumptions C17_histories_stop_before_replace.
 
 (* ... and whenever a history has led to an installed version, appending backup; install;
    restore brings back exactly the four files present before that backup. *)
-Theorem C17_histories_reversible : forall (runnable : file -> bool) (cmds : list cmd) (d : bool) (w : world),
-  installed runnable (run runnable cmds w) = true ->
-  let w0 := run runnable cmds w in
-  let w' := run runnable (cmds ++ [Backup; Install; Restore d]) w in
+Theorem C17_histories_reversible : forall (runnable : file -> bool) (fails : verb -> list event -> bool) (cmds : list cmd) (d : bool) (w : world),
+  installed runnable (run runnable fails cmds w) = true ->
+  let w0 := run runnable fails cmds w in
+  let w' := run runnable fails (cmds ++ [Backup; Install; Restore d]) w in
   (forall l, In l sys_locs -> fs_get l (wfs w') = fs_get l (wfs w0)) /\
-  wrunning w' = true /\ wenabled w' = true.
+  ((forall v l, fails v l = false) -> wrunning w' = true /\ wenabled w' = true).
 Proof. exact reversible_after_history. Qed.
 Print Assumptions C17_histories_reversible.
 
 (* A package whose agent is missing or does not run: install copies nothing (and leaves the
    service stopped -- the tool panics after `systemctl stop`). *)
-Theorem C17_install_bad_package_keeps_files : forall (runnable : file -> bool) (w : world),
+Theorem C17_install_bad_package_keeps_files : forall (runnable : file -> bool) (fails : verb -> list event -> bool) (w : world),
   version_ok runnable PkgExe w = false ->
-  wfs (exec runnable Install w) = wfs w /\ wrunning (exec runnable Install w) = false /\
-  exit_code runnable Install w = 101.
+  wfs (exec runnable fails Install w) = wfs w /\ exit_code runnable fails Install w = 101 /\
+  (fails VStop (wlog w) = false -> wrunning (exec runnable fails Install w) = false).
 Proof. exact install_bad_package. Qed.
 Print Assumptions C17_install_bad_package_keeps_files.
 
@@ -228,13 +234,27 @@ Print Assumptions C17_reversible_refuted.
    answer --version: restore panics after the stop).  Outside that class it holds -- this is
    C17_reversible again with the class predicate as the hypothesis, so that any OTHER failure of
    reversibility is still a violation. *)
-Theorem C17_reversible_outside_known_class : forall (runnable : file -> bool) (d : bool) (w : world),
+Theorem C17_reversible_outside_known_class : forall (runnable : file -> bool) (fails : verb -> list event -> bool) (d : bool) (w : world),
   four_present w = true -> KnownClass_C17_agent_not_runnable runnable w = false ->
-  let w' := exec runnable (Restore d) (exec runnable Install (exec runnable Backup w)) in
+  let w' := exec runnable fails (Restore d) (exec runnable fails Install (exec runnable fails Backup w)) in
   (forall l, In l sys_locs -> fs_get l (wfs w') = fs_get l (wfs w)) /\
-  wrunning w' = true /\ wenabled w' = true.
+  ((forall v l, fails v l = false) -> wrunning w' = true /\ wenabled w' = true).
 Proof. exact reversible_outside_known_class. Qed.
 Print Assumptions C17_reversible_outside_known_class.
+
+(* faults are not vacuous: with `systemctl stop` failing at every call, uninstall package still
+   removes the four files and exits 0 (the service is still reported running: nothing stopped it);
+   a failing `disable` leaves the service enabled while the unit file is removed all the same *)
+Theorem C17_faults_nonvacuous :
+  (forall l, In l sys_locs ->
+     fs_get l (wfs (exec standin_runnable stop_always_fails (Uninstall UPackage) ex_installed)) = None) /\
+  wrunning (exec standin_runnable stop_always_fails (Uninstall UPackage) ex_installed) = true /\
+  exit_code standin_runnable stop_always_fails (Uninstall UPackage) ex_installed = 0 /\
+  step_events standin_runnable (fails_of [false; true]) (Uninstall UService) ex_installed =
+    [ECall VStop; ECall VDisable; ERemove SysUnit; ECall VDaemonReload] /\
+  wenabled (exec standin_runnable (fails_of [false; true]) (Uninstall UService) (clear_log ex_installed)) = true.
+Proof. exact fault_example. Qed.
+Print Assumptions C17_faults_nonvacuous.
 
 (* the rendering of locations to path strings (from the regenerated constants) is injective on
    the twelve computed paths for the harness' setup directory, keeps system and package paths
@@ -251,11 +271,11 @@ Print Assumptions C17_layout.
 Example C17_nonvacuous :
   installed standin_runnable ex_installed = true /\ package_complete standin_runnable ex_installed = true /\
   (forall l, In l sys_locs -> fs_get l (wfs (triple standin_runnable true ex_installed)) = fs_get l (wfs ex_installed)) /\
-  fs_get SysCfg (wfs (exec standin_runnable Install (exec standin_runnable Backup ex_installed))) = Some (420, [5]) /\
-  backup_exists (exec standin_runnable Backup ex_installed) = true /\
+  fs_get SysCfg (wfs (exec standin_runnable never_fails Install (exec standin_runnable never_fails Backup ex_installed))) = Some (420, [5]) /\
+  backup_exists (exec standin_runnable never_fails Backup ex_installed) = true /\
   backup_exists (triple standin_runnable true ex_installed) = false /\
   backup_exists (triple standin_runnable false ex_installed) = true /\
-  step_events standin_runnable Install ex_installed =
+  step_events standin_runnable never_fails Install ex_installed =
     [ECall VStop; EWrite SysExe; EWrite SysCfg; EWrite SysEbpf; EWrite SysUnit;
      ECall VUnmask; ECall VDaemonReload; ECall VEnable; ECall VStart].
 Proof. exact nonvacuous_examples. Qed.
